@@ -96,7 +96,7 @@ CHECKS = {
          "DESIGN.md §3 C16"),
  "C17": ("exploration",
          "complete product of a JSON value grammar and all typed accessors against a reference classifier",
-         "About 2 100 JSON values (numerals around every power of two to 2^70 in three notations, all 65 control code points in strings, timestamps, URLs, media types, arrays, objects) x 4 key states x 9 key names (incl. keys with % verbs) x 8 accessors plus all GetMarkup pairs, decoded by encoding/json as jtp does, compared with a reference classifier written from the statement (absent / wrong type / unparseable / value, exact integer value via math/big).",
+         "About 2 100 JSON values (numerals around every power of two to 2^70 in three notations, all 65 control code points in strings, timestamps, URLs, media types, arrays, objects) x 4 key states x 9 key names (incl. keys with % verbs) x 8 accessors plus all GetMarkup pairs and every ordered pair of accessors on one object per value, decoded by encoding/json as jtp does, compared with a reference classifier written from the statement (absent / wrong type / unparseable / value, exact integer value via math/big).",
          "Trusted: the reference classifier in checks/c17; encoding/json, time.Parse, url.Parse are explored through, not modelled.",
          "DESIGN.md §3 C17"),
  # id: (category, technique, level text, level note, design ref)
